@@ -2,6 +2,7 @@ import CG.Drv.Script
 import CG.Model.TxScript
 import CG.Crypto.Secp256k1
 import CG.Spec.SighashCoverage
+import CG.Drv.TxV
 namespace CG.Drv.C03
 open CG CG.Drv CG.Drv.Script CG.Model.Interp
 
@@ -49,6 +50,9 @@ def handle (op : String) (a : List String) : Option String :=
       some (r ++ "\t" ++ r)
     | _, _, _, _ => some "bad-request\tbad-request"
   | "c03.signed", _ => some "*\tok"
+  -- c03.txv <tx hex> <utxos> <forkid> <genesis>: Tx::validate decided end to end by the Lean reference
+  -- (interpreter + TransactionChecker + sighash + secp256k1), see CG/Drv/TxV.lean
+  | "c03.txv", args => some (CG.Drv.TxV.txv args)
   -- c03.multi <seed> <nout> <types> <mutated output | ->: every input signed with its own type; after changing the amount of
   -- output j the spend must fail iff some input's type commits to output j (ALL, or SINGLE at index j)
   | "c03.multi", [_seed, _nout, tys, mutated] =>
